@@ -431,6 +431,13 @@ func cmdRun(args []string) int {
 			if sp.Structural != "" {
 				t0 := time.Now()
 				for _, r := range structuralChecks(ld.prog, sp.Structural) {
+					if r.Unknown {
+						// not a shape the scan understands: skipped (supporting
+						// evidence only), stated in the evidence file
+						h.Samples = append(h.Samples, map[string]string{"structural-skipped": r.ID, "detail": r.Detail})
+						fmt.Printf("NOTE structural obligation %s skipped: %s\n", r.ID, r.Detail)
+						continue
+					}
 					h.Obligations++
 					h.ObligationIDs[r.ID]++
 					if r.OK {
